@@ -22,6 +22,13 @@
       (`NoStackStrict`, used only for *which value* a deferred capture attaches, also excludes that situation at
       own `exception` events.)
 
+  `c15_weak_partial` replaces `NoClash` by the weaker `NoClashW` (Model/CallbacksW): an invocation must not have the
+  key of an ENCLOSING invocation that has a context pending while it runs.  Recursion, same-named methods and nested
+  lambdas are covered as long as the enclosing same-named invocation has no deferred work open at that moment (no span /
+  capture tracepoint on it, or the gate refused it) — in particular every program whose recursive functions carry no
+  span / capture tracepoint.  `c15_noclash_implies_weak`: `NoClash` implies it; `c15_weak_witness`: strictly weaker,
+  and still violated by the known finding's tree.
+
   Scope, stated as it is:
   * `AllNamed cfg` — every method location has a name (the property's "method tracepoint with a method name").  A
     nameless method location can say "here" at any kind of event and turns into a named one when it does (the
@@ -38,8 +45,32 @@
     leaves `process` (`c15_base_failure_skips_rest_witness`), ends the event (catch-all of `trace_call`) and is outside
     the theorems.
   * `c15_thread_local` is definitional for the machine of all threads (a tripwire).
+  * How deferred work is registered and completed below the level of a context is translated too
+    (`Extracted.Deferred`: `TriggerContext.__exit__`, the `ActionResult.process` table, `_is_deferred`,
+    `SpanActionCallback.process`, the attach guard of `DeferredSnapshotActionCallback.process`), section "registration
+    and completion": `c15_exit_registers_partial`, `c15_spans_closed_once_partial`, `c15_every_span_closed_partial`,
+    `c15_capture_attaches`, `c15_has_callback_table` (the model's `Action.hasCallback` against the translated table).
+    Modelled: a span action that fires creates at least one span (a span processor is installed and returns a span).
+  * The per-thread store itself (`deep.thread_local.ThreadLocal`: `get`, `set`, `clear`, `is_set`, `value`) is
+    translated (`Extracted.ThreadLocal`) and has its own theorems (`c15_tl_*`, section "the per-thread store"):
+    one-cell specification, no method raises, in-place mutation through `get()` is seen by the next `get()`, every
+    schedule of any number of threads projects to the threads' solo runs, a thread object that has not acted finds
+    nothing, and `c15_slot_refines_thread_local` shows that the slot expressions of the handler model (`slot.isSome`,
+    `slot.getD []`, `some (c :: slot.getD [])`, `none`) are what the translated methods compute.  That the namespace of
+    a `threading.local()` is per thread OBJECT (not per reusable ident) is CPython's semantics — trusted, exercised by
+    the differential run on real threads with reused idents; `c15_tl_ident_keyed_inherits_witness` shows what an
+    ident-keyed store (the class before 0ec78d1) does.
+  * `Callbacks.stepWith` keeps a thread's pending contexts in an `Option (List Ctx)`; `HandlerTL.stepTL` / `runGTL` is
+    the same handler written against the `ThreadLocal` API (every access a translated method, one store for all
+    threads keyed by the thread object), and `c15_handler_over_thread_local_step` / `c15_handler_over_thread_local`
+    show they are the same machine — so the theorems about `run` / `runG` are theorems about the handler over the
+    translated store (`c15_thread_local_released`).
 -/
 import DeepModel.Proofs.Trigger
+import DeepModel.Proofs.ThreadLocal
+import DeepModel.Proofs.HandlerTL
+import DeepModel.Proofs.CallbacksW
+import DeepModel.Extracted.Deferred
 
 namespace C15
 open Callbacks Trigger Extracted.Locations
@@ -227,6 +258,70 @@ theorem c15_stacked_witness :
   · decide
   · decide
 
+/-! ### the recursion hypothesis, weakened: only an enclosing same-named invocation WITH PENDING WORK confuses -/
+
+/-- **exactly once / window / LIFO under the weaker recursion hypothesis** (partial: `NoClashW`, `NoStack`) — as
+    `c15_partial`, for every forest in which no invocation runs while an enclosing invocation with the same (file name,
+    function name) has a context pending (`NoClashW`, which looks at the gate outcomes like `NoStack` does).  Recursive
+    functions, same-named methods of two classes, nested lambdas / comprehensions are inside the theorem whenever the
+    enclosing same-named invocation has no deferred work open. -/
+theorem c15_weak_partial (cfg : List Trig) (hnamed : AllNamed cfg) (forest : List Inv) (k : Nat)
+    (hc : forestNoClashW (opens cfg) forest k) (hs : forestNoStack (opens cfg) forest k) :
+    Completed (run cfg none (flattenForest forest k)).1 (run cfg none (flattenForest forest k)).2 := by
+  have hn : (none : Option (List Ctx)) = norm [] := rfl
+  obtain ⟨h1, h2⟩ := forest_frameW (cfg.length : Int) (actionsFor cfg) (kindsOK_actionsFor cfg hnamed) forest k hc hs
+  have hchk := chk_srun (cfg.length : Int) (actionsFor cfg) [] (flattenForest forest k)
+  rw [h1] at hchk
+  rw [run, hn, runWith_norm]
+  refine ⟨by rw [h1]; rfl, hchk, ?_, h2⟩
+  intro c
+  have := chk_counts c [] [] _ hchk
+  simpa using this
+
+/-- the new hypothesis is weaker: `NoClash` implies `NoClashW` under every configuration and gate outcome (so
+    `c15_partial` is an instance of `c15_weak_partial`). -/
+theorem c15_noclash_implies_weak (cfg : List Trig) (forest : List Inv) (k : Nat) (h : forestNoClash forest) :
+    forestNoClashW (opens cfg) forest k :=
+  forestNoClash_imp_W (opens cfg) forest k h
+
+/-- every schedule, weaker hypothesis -/
+theorem c15_interleaved_complete_weak (cfg : List Trig) (hnamed : AllNamed cfg) (gs : List (Tid × Event)) (t : Tid)
+    (forest : List Inv) (k : Nat) (hproj : proj t gs = flattenForest forest k)
+    (hc : forestNoClashW (opens cfg) forest k) (hs : forestNoStack (opens cfg) forest k) :
+    Completed ((runG cfg Store.empty gs).1 t) (projEff t (runG cfg Store.empty gs).2) := by
+  obtain ⟨h1, h2⟩ := runG_proj cfg gs Store.empty t
+  rw [h1, h2, hproj]
+  exact c15_weak_partial cfg hnamed forest k hc hs
+
+/-- `rec(2)` with a method span whose gate refuses the two OUTER calls and allows the innermost: recursion
+    (`NoClash` fails), but no enclosing `rec` has anything pending when the inner ones run. -/
+def innerRecTree : Inv :=
+  .mk "/app/m.py" "rec" 1 10 [⟨0, .span⟩] (.line 11 [] (.call
+    (.mk "/app/m.py" "rec" 2 10 [⟨0, .span⟩] (.line 11 [] (.call
+      (.mk "/app/m.py" "rec" 3 10 [] (.line 12 [] .nil) (.ret 12 0)) (.line 13 [] .nil))) (.ret 13 1))
+    (.line 13 [] .nil))) (.ret 13 2)
+
+/-- **strictly weaker, and still necessary** — `innerRecTree` violates `NoClash` but satisfies `NoClashW` and `NoStack`:
+    its span is opened by the innermost invocation `[0,0,0]` and closed at that invocation's own `return`, nothing is
+    left pending.  `recTree` (the known finding `C15/recursion-name-match`: the OUTERMOST call opens the span) violates
+    `NoClashW` too. -/
+theorem c15_weak_witness :
+    ¬ innerRecTree.NoClash ∧ innerRecTree.NoClashW (opens recCfg) [0] [] ∧ innerRecTree.NoStack (opens recCfg) [0] ∧
+    (run recCfg none (innerRecTree.flatten [0])).1 = none ∧
+    (∃ c ev, Eff.closed c ev ∈ (run recCfg none (innerRecTree.flatten [0])).2 ∧
+      c.opener.inv = [0, 0, 0] ∧ ev.inv = [0, 0, 0] ∧ ev.kind = "return") ∧
+    ¬ recTree.NoClashW (opens recCfg) [0] [] := by
+  refine ⟨?_, ?_, ?_, ?_, ?_, ?_⟩
+  · simp [innerRecTree, Inv.NoClash, Items.NoClash, Items.keys, Inv.keys]
+  · rw [← noClashWB_iff]; decide
+  · simp only [innerRecTree, Inv.NoStack, Items.NoStack]
+    decide
+  · decide
+  · refine ⟨⟨"call", "m.py", 10, "rec", [⟨0, .span⟩], ⟨"call", "/app/m.py", 10, "rec", 0, 3, [0, 0, 0], []⟩⟩,
+      ⟨"return", "/app/m.py", 12, "rec", 0, 3, [0, 0, 0], []⟩, ?_, rfl, rfl, rfl⟩
+    decide
+  · rw [← noClashWB_iff]; decide
+
 /-! ### captured values -/
 
 /-- a context opened at a `call` event (method span, method capture) is only ever completed at a `return` or an
@@ -405,6 +500,267 @@ theorem c15_nothing_inherited (cfg : List Trig) (hnamed : AllNamed cfg) (gs : Li
     have := (runG_proj cfg gs Store.empty t).1
     rw [this, hp]
     rfl
+
+/-! ### registration and completion of deferred work below the level of a context (`Extracted.Deferred`) -/
+
+section DeferredWork
+open Extracted.Deferred
+
+/-- **registration** (partial: no `result.process` fails with a BaseException) — `TriggerContext.__exit__`, translated
+    with its per-result `try/except Exception`: the callbacks an event registers are exactly those of the results whose
+    `process` returns one, in the order the actions ran; a result whose `process` raises an `Exception` (a snapshot
+    decorator, a logger plugin) costs only its own callback; no exception leaves. -/
+theorem c15_exit_registers_partial {ρ γ : Type} (proc : ρ → Except Py.Exn (Option γ))
+    (hexc : ∀ r, proc r ≠ .error Py.Exn.base) (results : List ρ) :
+    contextExit proc results =
+      (results.filterMap (fun r => match proc r with | .ok (some c) => some c | _ => none), false) := by
+  induction results with
+  | nil => rfl
+  | cons r rest ih =>
+    cases h : proc r with
+    | ok o => cases o <;> simp [contextExit, h, ih]
+    | error e =>
+      cases e with
+      | exc => simp [contextExit, h, ih]
+      | base => exact absurd h (hexc r)
+
+/-- the hypothesis is needed: a BaseException from the second result's `process` leaves `__exit__`; the callback of
+    the first result stays registered (it is pushed by `__trace_call` and completed later), the third result is lost. -/
+theorem c15_exit_base_failure_witness :
+    contextExit (fun r : Nat => if r = 2 then .error Py.Exn.base else .ok (some r)) [1, 2, 3] = ([1], true) ∧
+    contextExit (fun r : Nat => if r = 2 then .error Py.Exn.exc else .ok (some r)) [1, 2, 3] = ([1, 3], false) ∧
+    contextExit (fun r : Nat => if r = 2 then .ok none else .ok (some r)) [1, 2, 3] = ([1, 3], false) := by decide
+
+/-- **every span of a callback is closed exactly once** (partial: `close()` fails with an `Exception` at most) —
+    `SpanActionCallback.process`, translated with its per-span `try/except Exception`: whichever spans fail to close,
+    `close()` is called on every span of the callback, once each, in order, and no exception leaves. -/
+theorem c15_spans_closed_once_partial {σ : Type} (fails : σ → Option Py.Exn)
+    (hexc : ∀ s, fails s ≠ some Py.Exn.base) (spans : List σ) :
+    spanCallbackProcess fails spans = (spans, false) := by
+  induction spans with
+  | nil => rfl
+  | cons c r ih =>
+    cases hc : fails c with
+    | none => simp [spanCallbackProcess, hc, ih]
+    | some e =>
+      cases e with
+      | exc => simp [spanCallbackProcess, hc, ih]
+      | base => exact absurd hc (hexc c)
+
+theorem c15_span_base_failure_witness :
+    spanCallbackProcess (fun b : Nat => if b = 2 then some Py.Exn.base else none) [1, 2, 3] = ([1, 2], true) ∧
+    spanCallbackProcess (fun b : Nat => if b = 2 then some Py.Exn.exc else none) [1, 2, 3] = ([1, 2, 3], false) := by
+  decide
+
+/-- **down to the span** (partial: `close()` fails with an `Exception` at most) — a completed context (`Eff.closed c ev`:
+    `CallbackContext.process` ran) whose callbacks are span callbacks (one list of spans per span action; a callback
+    lets an exception out only if a `close()` raised a BaseException): every callback is processed and every span of
+    every callback is closed exactly once, whichever of them fail. -/
+theorem c15_every_span_closed_partial {σ : Type} (fails : σ → Option Py.Exn)
+    (hexc : ∀ s, fails s ≠ some Py.Exn.base) (cbs : List (List σ)) :
+    contextProcess (fun cb => if (spanCallbackProcess fails cb).2 then some Py.Exn.base else none) cbs = (cbs, false) ∧
+    ∀ cb ∈ cbs, spanCallbackProcess fails cb = (cb, false) := by
+  refine ⟨?_, fun cb _ => c15_spans_closed_once_partial fails hexc cb⟩
+  apply c15_failed_callback_isolated_partial
+  intro cb
+  rw [c15_spans_closed_once_partial fails hexc cb]
+  simp
+
+/-- **a method capture attaches the result** — a deferred capture opened at a `call` event is completed at an event at
+    which the translated guard of `DeferredSnapshotActionCallback.process` attaches the event's `arg` (the value returned
+    / the exception raised) before the snapshot is pushed — for every stream, no hypothesis; a capture opened at a
+    `line` event and completed at the next `line` event attaches nothing (there is no result). -/
+theorem c15_capture_attaches (cfg : List Trig) (s : List Ctx) (ev : Event) (c : Ctx) (e : Event)
+    (h : Eff.closed c e ∈ (traceCall cfg (norm s) ev).2) (hc : c.event = "call") :
+    captureAttaches e.kind = true ∧ captureAttaches "line" = false := by
+  refine ⟨?_, by decide⟩
+  rcases c15_capture_kind cfg s ev c e h hc with hk | hk <;> rw [hk] <;> decide
+
+/-- tripwire: **which actions defer work** — the model's `Action.hasCallback` is the translated table: a span action attaches a
+    `SpanResult`, a snapshot action a `DeferredSnapshotActionResult` iff its stage is `line_capture` / `method_capture`
+    (the model's kind `capture`) and a `SendSnapshotActionResult` otherwise, a log action a `LogActionResult`, a metric
+    action nothing; of these exactly `SpanResult` and `DeferredSnapshotActionResult` hand back a callback. -/
+theorem c15_has_callback_table :
+    (∀ n, (Action.mk n .span).hasCallback = resultHasCallback attachedBySpan) ∧
+    (∀ n, (Action.mk n .capture).hasCallback = resultHasCallback (attachedBySnapshot true)) ∧
+    (∀ n, (Action.mk n .snapshot).hasCallback = resultHasCallback (attachedBySnapshot false)) ∧
+    (∀ n, (Action.mk n .log).hasCallback = resultHasCallback attachedByLog) ∧
+    (∀ n, (Action.mk n .metric).hasCallback = false) ∧ attachedByMetric = none ∧
+    (∀ st, isDeferred st = true ↔ st = some "line_capture" ∨ st = some "method_capture") := by
+  refine ⟨fun _ => rfl, fun _ => rfl, fun _ => rfl, fun _ => rfl, fun _ => rfl, rfl, ?_⟩
+  intro st
+  cases st with
+  | none => simp [isDeferred]
+  | some x => simp [isDeferred, deferredStages]
+
+end DeferredWork
+
+/-! ### the per-thread store: `deep.thread_local.ThreadLocal`, translated method by method -/
+
+section ThreadLocalStore
+open TLocal Extracted.ThreadLocal HandlerTL
+
+/-- **one cell per thread** — the translated methods against a one-cell specification, for every provider (stateful:
+    `dp k` = what its k-th call returns), every call counter and every slot (`none` = no attribute, `some none` = the
+    attribute holds `None`): `get` returns a stored non-`None` value without calling the provider, otherwise calls the
+    provider exactly once, stores what it returned and returns it; `set` stores; `clear` removes (also when nothing is
+    there); `is_set` reads; the `value` property is `get` / `set`.  In particular **no method raises** (every result is
+    `some`): the `del` in `clear` is guarded. -/
+theorem c15_tl_cell {α : Type} (dp : Nat → Option α) (c : Nat) (s : Slot α) (v : Option α) :
+    tlGet dp c s = some (match s with
+      | some (some x) => (s, c, some x)
+      | _ => (some (dp c), c + 1, dp c)) ∧
+    tlSet dp v c s = some (some v, c, ()) ∧
+    tlClear dp c s = some (none, c, ()) ∧
+    tlIsSet dp c s = some (s, c, s.isSome) ∧
+    tlValueGet dp c s = tlGet dp c s ∧
+    tlValueSet dp v c s = tlSet dp v c s :=
+  ⟨get_spec dp c s, set_spec dp v c s, clear_spec dp c s, isSet_spec dp c s, valueGet_spec dp c s,
+    by rw [valueSet_spec, set_spec]⟩
+
+/-- **`get()` hands out the stored object** — whatever the slot was, after `tl.get().<mutate>` (the handler's
+    `self._callbacks.get().append(ctx)`) with a provider that does not return `None`, the next `get` returns the
+    mutated value and does not call the provider again: nothing pushed is lost, no second default is created. -/
+theorem c15_tl_update_visible {α : Type} [DecidableEq α] (dp : Nat → Option α) (hd : ∀ k, dp k ≠ none) (c : Nat)
+    (s : Slot α) (f : α → α) :
+    ∃ v, (opStep dp c s .get).2.2 = .val (some v) ∧
+      (opStep dp c s (.update f)).2.2 = .unit ∧
+      opStep dp (opStep dp c s (.update f)).2.1 (opStep dp c s (.update f)).1 .get =
+        (some (some (f v)), (opStep dp c s (.update f)).2.1, .val (some (f v))) := by
+  rw [opStep_get, opStep_update]
+  cases s with
+  | none =>
+    cases h : dp c with
+    | none => exact absurd h (hd c)
+    | some d => exact ⟨d, rfl, rfl, by rw [opStep_get]⟩
+  | some w =>
+    cases w with
+    | none =>
+      cases h : dp c with
+      | none => exact absurd h (hd c)
+      | some d => exact ⟨d, rfl, rfl, by rw [opStep_get]⟩
+    | some x => exact ⟨x, rfl, rfl, by rw [opStep_get]⟩
+
+/-- a stored `None` counts as "set" for `is_set` but as "nothing there" for `get`, which then calls the provider and
+    overwrites it (the code as it is; the handler never stores `None`). -/
+theorem c15_tl_none_value_witness :
+    (opStep (fun k => some (10 + k)) 0 (some none) .isSet).2.2 = .flag true ∧
+    opStep (fun k => some (10 + k)) 0 (some none) .get = (some (some 10), 1, .val (some 10)) ∧
+    opStep (fun k => some (10 + k)) 1 (some (some 10)) .get = (some (some 10), 1, .val (some 10)) ∧
+    (opStep (fun _ => (none : Option Nat)) 0 none (.update (· + 1))).2.2 = .raised := by decide
+
+/-- model lemma: **frame** — an operation of thread `u` changes no slot with another key (for `threading.local`, `key = id`:
+    no other thread's slot); by construction of the machine of all threads. -/
+theorem c15_tl_frame {κ α : Type} [DecidableEq κ] [DecidableEq α] (key : Thr → κ) (dp : Nat → Option α)
+    (S : St κ α) (u : Thr) (op : Op α) (k : κ) (h : k ≠ key u) :
+    (stepK key dp S (u, op)).1.store k = S.store k :=
+  stepK_frame key dp S u op k h
+
+/-- **every schedule** — for every interleaving `gs` of the operations of any number of threads on one `ThreadLocal`
+    (store keyed by the thread object, provider returning a fixed value as `lambda: deque()` / `lambda: None` do),
+    from every store: the slot of thread `t` afterwards and the results of `t`'s operations (what its `get` / `is_set`
+    returned) are those of `t` running alone on its own operations — no thread sees or loses anything through
+    another thread's operations. -/
+theorem c15_tl_interleaved {α : Type} [DecidableEq α] (d : Option α) (gs : List (Thr × Op α)) (S : St Thr α)
+    (t : Thr) :
+    ((runT (fun _ => d) S gs).1.store t, projRes t (runT (fun _ => d) S gs).2) =
+      solo (fun _ => d) 0 (S.store t) (projOps t gs) :=
+  run_proj d gs S t
+
+/-- **a fresh thread finds nothing** — after any schedule from the empty store, a thread whose key no acting thread
+    had (for `threading.local`, `key = id`: a thread object that has not acted yet — whatever idents the finished
+    threads had) has no value: its `is_set` is `False` and its first `get` is the provider's next value. -/
+theorem c15_tl_fresh_thread {κ α : Type} [DecidableEq κ] [DecidableEq α] (key : Thr → κ) (dp : Nat → Option α)
+    (gs : List (Thr × Op α)) (t : Thr) (h : ∀ te ∈ gs, key te.1 ≠ key t) :
+    (runK key dp St.empty gs).1.store (key t) = none ∧
+    (stepK key dp (runK key dp St.empty gs).1 (t, .isSet)).2 = .flag false ∧
+    (stepK key dp (runK key dp St.empty gs).1 (t, .get)).2 = .val (dp (runK key dp St.empty gs).1.calls) := by
+  have h0 : (runK key dp St.empty gs).1.store (key t) = none := by
+    rw [runK_untouched key dp gs St.empty (key t) h]; rfl
+  refine ⟨h0, ?_, ?_⟩
+  · simp [stepK, opStep, isSet_spec, h0]
+  · simp [stepK, opStep_get, h0]
+
+/-- **the key must be the thread, not its ident** — two thread objects with the same ident (the OS reuses the ident
+    of a finished thread): in a store keyed by ident the later thread finds the value the earlier one left
+    (`is_set` true, `get` returns it: the class before 0ec78d1); in the store keyed by the thread object it finds
+    nothing. -/
+theorem c15_tl_ident_keyed_inherits_witness :
+    (stepK (fun _ => (7 : Nat)) (fun _ => (none : Option Nat))
+      (runK (fun _ => (7 : Nat)) (fun _ => none) St.empty [(0, .set (some 5))]).1 (1, .isSet)).2 = .flag true ∧
+    (stepK (fun _ => (7 : Nat)) (fun _ => (none : Option Nat))
+      (runK (fun _ => (7 : Nat)) (fun _ => none) St.empty [(0, .set (some 5))]).1 (1, .get)).2 = .val (some 5) ∧
+    (stepT (fun _ => (none : Option Nat))
+      (runT (fun _ => none) St.empty [(0, .set (some 5))]).1 (1, .isSet)).2 = .flag false := by decide
+
+/-- a store keyed by anything injective on the threads (thread objects; idents as long as none is reused) gives every
+    thread the same results as the store keyed by the thread object, under every schedule and provider. -/
+theorem c15_tl_key_injective {κ α : Type} [DecidableEq κ] [DecidableEq α] (key : Thr → κ)
+    (hinj : ∀ a b, key a = key b → a = b) (dp : Nat → Option α) (gs : List (Thr × Op α)) :
+    (runK key dp St.empty gs).2 = (runT dp St.empty gs).2 ∧
+    ∀ t, (runK key dp St.empty gs).1.store (key t) = (runT dp St.empty gs).1.store t :=
+  runK_injective key hinj dp gs St.empty St.empty (fun _ => rfl) rfl
+
+/-- model lemma: **the handler model's slot expressions are the translated `ThreadLocal` methods** — with the handler's
+    provider (`lambda: deque()`), `self._callbacks.is_set` is `slot.isSome`; `self._callbacks.value` is `slot.getD []`
+    and leaves the slot set; `self._callbacks.get().append(x)` leaves `some (x :: slot.getD [])` (head of the list =
+    right end of the deque); `self._callbacks.clear()` leaves it unset — the expressions `Callbacks.stepWith` and the
+    translated `__process_call_backs` use. -/
+theorem c15_slot_refines_thread_local (c : Nat) (slot : Option (List Ctx)) (x : Ctx) :
+    (opStep (fun _ => some []) c (embSlot slot) .isSet).2.2 = .flag slot.isSome ∧
+    (opStep (fun _ => some []) c (embSlot slot) .isSet).1 = embSlot slot ∧
+    (opStep (fun _ => some []) c (embSlot slot) .valueGet).2.2 = .val (some (slot.getD [])) ∧
+    (opStep (fun _ => some []) c (embSlot slot) .valueGet).1 = embSlot (some (slot.getD [])) ∧
+    (opStep (fun _ => some []) c (embSlot slot) (.update (x :: ·))).1 = embSlot (some (x :: slot.getD [])) ∧
+    (opStep (fun _ => some []) c (embSlot slot) .clear).1 = embSlot none := by
+  cases slot <;>
+    simp [opStep, isSet_spec, valueGet_spec, get_spec, clear_spec, embSlot]
+
+/-- **the handler over the translated per-thread store, one event** — `trace_call` written against the `ThreadLocal`
+    API in the order of the source text (`HandlerTL.stepTL`: `is_set`, `value` + in-place pop / append, `clear()`,
+    `get().append(..)`, each one the translated method) does to the calling thread's `ThreadLocal` slot and produces as
+    effects exactly what `Callbacks.stepWith` — the handler every theorem above is about — does with its
+    `Option (List Ctx)`: for every configuration size, trigger phase, provider call counter, slot and event. -/
+theorem c15_handler_over_thread_local_step (ncfg : Int) (acts : Event → List Action) (calls : Nat)
+    (slot : Option (List Ctx)) (ev : Event) :
+    (stepTL ncfg acts calls (embSlot slot) ev).1.1 = embSlot (stepWith ncfg acts slot ev).1 ∧
+    (stepTL ncfg acts calls (embSlot slot) ev).2 = (stepWith ncfg acts slot ev).2 :=
+  stepTL_refines ncfg acts calls slot ev
+
+/-- **the handler over the translated per-thread store, all threads** — for every configuration and every interleaving
+    of the events of any number of threads, the machine in which all threads share ONE `ThreadLocal` (the store keyed by
+    the thread object, every access a translated method) has the effects of `Trigger.runG`, and every thread's
+    `ThreadLocal` slot is the embedding of its `runG` slot: `c15_interleaved`, `c15_interleaved_complete`,
+    `c15_nothing_inherited` are theorems about that machine. -/
+theorem c15_handler_over_thread_local (cfg : List Trig) (gs : List (Tid × Event)) :
+    (runGTL cfg St.empty gs).2 = (runG cfg Store.empty gs).2 ∧
+    ∀ t, (runGTL cfg St.empty gs).1.store t = embSlot ((runG cfg Store.empty gs).1 t) :=
+  runGTL_refines cfg gs Store.empty St.empty (fun _ => rfl)
+
+/-- **nothing left in the store** — in that machine, after any schedule, the `ThreadLocal` attribute of a thread whose
+    own stream satisfied the hypotheses is gone again (`clear()` ran: `is_set` is `False`), and a thread object that has
+    not run finds none — whatever the other threads did and whatever idents they had. -/
+theorem c15_thread_local_released (cfg : List Trig) (hnamed : AllNamed cfg) (gs : List (Tid × Event)) (t : Tid) :
+    (∀ forest k, proj t gs = flattenForest forest k → forestNoClash forest → forestNoStack (opens cfg) forest k →
+      (runGTL cfg St.empty gs).1.store t = none) ∧
+    (proj t gs = [] → (runGTL cfg St.empty gs).1.store t = none) := by
+  have h := (c15_handler_over_thread_local cfg gs).2 t
+  refine ⟨fun forest k hp hc hs => ?_, fun hp => ?_⟩
+  · rw [h, (c15_nothing_inherited cfg hnamed gs).1 t forest k hp hc hs]; rfl
+  · rw [h, (c15_nothing_inherited cfg hnamed gs).2 t hp]; rfl
+
+/-- tripwire: the store of a `ThreadLocal` is created by `threading.local()` in `__init__` (one per instance) -/
+theorem c15_tl_store_factory : storeFactory = "threading.local" := rfl
+
+/-- non-vacuity: three threads (idents irrelevant) interleaved on one instance with the handler's provider -/
+example :
+    (runT (fun _ => some ([] : List Nat)) St.empty
+      [(0, .isSet), (0, .update (1 :: ·)), (1, .isSet), (1, .update (2 :: ·)), (0, .update (3 :: ·)), (1, .clear),
+       (2, .get), (0, .valueGet), (1, .isSet)]).2 =
+      [(0, .flag false), (0, .unit), (1, .flag false), (1, .unit), (0, .unit), (1, .unit), (2, .val (some [])),
+       (0, .val (some [3, 1])), (1, .flag false)] := by decide
+
+end ThreadLocalStore
 
 /-! ### non-vacuity: a program with a method span + deferred capture on one function (two callbacks in one
     context), a line span inside a nested function, a caught exception, a generator resumed twice, on two
